@@ -90,7 +90,7 @@ class StmtMixin:
         v = self.eval(st.exc)
         if isinstance(v, Fn) and v.kind == "exception":
             t = v.target
-            name = t.name if hasattr(t, "name") else t.__name__
+            name = t.__name__ if isinstance(t, type) else t.name
             raise PathEnd("raise", (name, v.self_))
         if isinstance(v, Fn) and v.kind == "class":
             raise PathEnd("raise", (v.target.name, K("")))
